@@ -7,7 +7,7 @@ Inductive ikind := I0 | I8 | I16 | I32 | I64 | U0 | U8 | U16 | U32 | U64.   (* I
 Inductive kind :=
 | KBool | KInt (k : ikind) | KFloat (bits : N) | KString | KDuration
 | KCustom       (* harness type Custom string: UnmarshalFlag on *Custom, MarshalFlag on Custom *)
-| KComp.        (* harness type Comp string: Complete on *Comp; plain string otherwise *)
+| KComp.        (* harness type Comp string: Complete and UnmarshalFlag on *Comp only (no value-receiver method) *)
 
 Inductive vtype :=
 | TScalar (k : kind)
